@@ -56,7 +56,7 @@ def _interp(repo, modname, scalar):
 
 @rule(
     "GEN-INTEGRAL",
-    ["C06", "C05", "C18"],
+    ["C06", "C05", "C18", "C20"],
     "the C and numba integral generators, interpreted for every scalar type on sample IntegralIR records, emit a "
     "descriptor named <integral>_<cell type> whose only non-NULL kernel slot is the one of the scalar type and points "
     "to the kernel defined in the same text with scalar/real parameter types; enabled_coefficients, "
@@ -80,7 +80,7 @@ def gen_integral(repo, res):
             for scalar in ("float32", "float64", "complex64", "complex128"):
                 key = f"{g.key}:{label}:{scalar}"
                 res.ob(key)
-                props = ("C06", "C05", "C18") if be == "C" else ("C18",)
+                props = ("C06", "C05", "C18") if be == "C" else ("C18", "C20")
                 # the rest of the IR, as far as a generator may consult it: coefficient i is evaluated through a table of type varying (i = 0),
                 # not at all (disabled ones) or through a `ones` table (a piecewise-constant coefficient, read directly as w[offset]) for the last
                 coefs = [Node("Coefficient", name=f"w{i}") for i in range(len(s["enabled"]))]
@@ -179,3 +179,151 @@ def gen_integral(repo, res):
                         if not re.search(rf"(?m)^\s+{arr}\s*=\s*numba\.carray\(\s*_{arr}\s*,\s*\(?\s*{n}\s*,?\s*\)?\s*\)", text):
                             fail(f"the kernel does not view argument _{arr} as an array of the extent tensor_sizes gives it ({n})")
                             break
+
+
+def _file_scope_names(text: str, be: str) -> set[str]:
+    """identifiers defined at file scope (C) / module level (Python) by a piece of emitted text"""
+    out = set()
+    for line in text.splitlines():
+        if not line or line[0] in " \t}/#*":
+            continue
+        if be == "C":
+            m_ = re.match(r"(?:extern\s+)?(?:static\s+)?(?:const\s+)?[A-Za-z_][\w\s\*]*?\b([A-Za-z_]\w*)\s*(?:\[[^\]]*\]\s*)*(?:=|\(|;)", line)
+            if m_ and not line.startswith("extern") and not line.startswith("typedef"):
+                out.add(m_.group(1))
+        else:
+            m_ = re.match(r"(?:def|class)\s+([A-Za-z_]\w*)|([A-Za-z_]\w*)\s*=", line)
+            if m_:
+                out.add(m_.group(1) or m_.group(2))
+    return out
+
+
+@rule(
+    "KERNEL-NAMES-DISJOINT",
+    ["C13", "C19", "C06"],
+    "one integral is generated once per integration-entity cell type (prism facets: triangle and quadrilateral kernels in one module): "
+    "the integral generators of both backends, interpreted for two cell types of the same integral, must define disjoint sets of "
+    "file-scope names (descriptor, kernel function, enabled_coefficients array, ...) - a name without the cell type is defined twice",
+    min_instances=2,
+)
+def kernel_names_disjoint(repo, res):
+    for be in ("C", "numba"):
+        modname = f"ffcx.codegeneration.{be}.integral"
+        mod = repo.mod(modname)
+        g = mod.func("generator")
+        res.functions.add(g.key)
+        key = f"{g.key}:two-cell-types"
+        res.ob(key)
+        texts = {}
+        try:
+            for cell in (_Cell("triangle", 2), _Cell("quadrilateral", 3)):
+                coefs = [Node("Coefficient", name="w0")]
+                ir = Node("IntegralIR", enabled_coefficients=[True], part="TensorPart.full", rank=2,
+                          expression=Node("CommonExpressionIR", integral_type="exterior_facet", entity_type="facet", name="integral_ds", needs_facet_permutations=False,
+                                          coordinate_element_hash=7, coefficient_numbering={coefs[0]: 0}, coefficient_offsets={coefs[0]: 0}, original_constant_offsets={},
+                                          tensor_shape=[3, 3], integrand={}, unique_tables={}, unique_table_types={}, number_coordinate_dofs=6))
+                it = _interp(repo, modname, "float64")
+                out = it.call_f(g, [ir, cell, {"scalar_type": "float64"}])
+                texts[cell.name] = out[-1]
+        except Raised as e:
+            res.fail(key, f"{be} integral generator raises ({e.what})", mod.line(g.node))
+            continue
+        a, b = (_file_scope_names(t, be) for t in texts.values())
+        if not a or not b:
+            raise AnalysisError(f"{be} integral generator: no file-scope definitions recognised in the emitted text")
+        both = sorted(a & b)
+        if both:
+            res.fail(key, f"the {be} kernels of one integral for the facet types triangle and quadrilateral both define {both}: the module defines the name twice "
+                     "(redefinition error in C, the later definition silently wins in Python)", mod.line(g.node), props=("C13", "C19", "C06") if be == "C" else ("C13", "C18"))
+
+
+class _CT(int, PyNative):
+    """basix.CellType: an IntEnum - hashes like its integer value, so a set of cell types iterates in a seed-independent order."""
+
+    def __new__(cls, value, name):
+        o = int.__new__(cls, value)
+        o.name = name
+        return o
+
+    def __repr__(self):
+        return f"CellType.{self.name}"
+
+    __str__ = __repr__
+
+
+@rule(
+    "GEN-CODE-ORDER",
+    ["C12", "C06"],
+    "generate_code interpreted on a sample DataIR whose integrals have several cell types (prism facets): the (cell type, rule) keys of "
+    "an integrand map are inserted in the order of ufl.Cell.facet_types, a tuple(set(..)) whose order changes with the hash seed - the "
+    "sequence of kernels emitted must be the same for every insertion order of that map (permutation invariance), one kernel per "
+    "(integral, cell type), integrals in IR order, followed by the forms and expressions in IR order",
+    min_instances=3,
+)
+def gen_code_order(repo, res):
+    import itertools
+
+    modname = "ffcx.codegeneration.codegeneration"
+    m = repo.mod(modname)
+    g = m.func("generate_code")
+    res.functions.add(g.key)
+    loc = m.line(g.node)
+    tri, quad, itv = _CT(3, "triangle"), _CT(4, "quadrilateral"), _CT(1, "interval")
+    r1, r2 = Node("QuadratureRule", name="r1"), Node("QuadratureRule", name="r2")
+
+    def run(orders):
+        it = Interp(repo, load_classes(repo), primary=modname)
+        it.overrides["logger"] = Node("Logger", info=_PyCall(lambda *a: None), debug=_PyCall(lambda *a: None))
+        gens = Node("Module", integral=Node("M", generator=_PyCall(lambda ir, domain, options: ("integral", ir.f["expression"].f["name"], repr(domain)))),
+                    form=Node("M", generator=_PyCall(lambda ir, options: ("form", ir.f["name"]))),
+                    expression=Node("M", generator=_PyCall(lambda ir, options: ("expression", ir.f["name"]))),
+                    file=Node("M", generator=_PyCall(lambda options: (("pre",), ("post",))), suffixes=(".h", ".c")))
+        it.overrides["import_module"] = _PyCall(lambda name: gens)
+        it.overrides["get_language"] = _PyCall(lambda options: "ffcx.codegeneration.C")
+        it.overrides["CodeBlocks"] = _PyCall(lambda **k: Node("CodeBlocks", **k))
+        integrals = []
+        for name, keys in orders:
+            integrals.append(Node("IntegralIR", expression=Node("CommonExpressionIR", name=name, integrand={k: {"marker": name} for k in keys})))
+        ir = Node("DataIR", integrals=integrals, forms=[Node("FormIR", name="form_a"), Node("FormIR", name="form_b")], expressions=[Node("ExpressionIR", name="expr_a")])
+        out = it.call_f(g, [ir, {"scalar_type": "float64"}])
+        cb = out[0] if isinstance(out, tuple) else out
+        if not isinstance(cb, Node) or "integrals" not in cb.f:
+            raise AnalysisError("generate_code did not return code blocks")
+        return cb.f
+
+    base = [("facet_integral", [(tri, r1), (quad, r1), (quad, r2)]), ("cell_integral", [(itv, r1)]), ("other_facet_integral", [(quad, r2), (tri, r2)])]
+    key = f"{g.key}:permutation-invariance"
+    res.ob(key)
+    outs = []
+    try:
+        for perm0 in itertools.permutations(base[0][1]):
+            for perm2 in itertools.permutations(base[2][1]):
+                outs.append(((list(perm0), list(perm2)), run([(base[0][0], list(perm0)), base[1], (base[2][0], list(perm2))])))
+    except Raised as e:
+        res.fail(key, f"generate_code raises ({e.what}) on the sample IR", loc)
+        return
+    ref = outs[0][1]["integrals"]
+    for (p0, p2), o in outs[1:]:
+        if o["integrals"] != ref:
+            res.fail(key, f"the kernels are emitted as {[x[1:] for x in ref]} when the integrand map of the prism facet integral was filled in the order "
+                     f"{[repr(k[0]) for k in outs[0][0][0]]}, but as {[x[1:] for x in o['integrals']]} when it was filled as {[repr(k[0]) for k in p0]}: that order is "
+                     "ufl.Cell.facet_types, a tuple(set(...)) that changes with PYTHONHASHSEED, so the generated text differs between processes", loc)
+            break
+    key = f"{g.key}:one-kernel-per-integral-and-cell-type"
+    res.ob(key)
+    got = [x[1:] for x in ref]
+    want_sets = [("facet_integral", {repr(tri), repr(quad)}), ("cell_integral", {repr(itv)}), ("other_facet_integral", {repr(tri), repr(quad)})]
+    pos = 0
+    ok = True
+    for name, doms in want_sets:
+        chunk = got[pos:pos + len(doms)]
+        if {c[0] for c in chunk} != {name} or {c[1] for c in chunk} != doms or len(chunk) != len(doms):
+            ok = False
+        pos += len(doms)
+    if not ok or pos != len(got):
+        res.fail(key, f"kernels emitted: {got}; expected one per (integral, cell type) - never one per (cell type, rule) - with the integrals in IR order", loc)
+    key = f"{g.key}:forms-and-expressions-in-ir-order"
+    res.ob(key)
+    o = outs[0][1]
+    if o.get("forms") != [("form", "form_a"), ("form", "form_b")] or o.get("expressions") != [("expression", "expr_a")] or o.get("file_pre") != [("pre",)] or o.get("file_post") != [("post",)]:
+        res.fail(key, f"forms / expressions / file blocks are {o.get('forms')}, {o.get('expressions')}, {o.get('file_pre')}, {o.get('file_post')}", loc)
